@@ -26,6 +26,7 @@
 from __future__ import annotations
 
 import asyncio
+import functools
 import logging
 import struct
 from collections import defaultdict
@@ -75,6 +76,47 @@ def _bearer_id(bearer: att.Bearer) -> str:
         return f'[0x{bearer.connection.handle:04X}|CID=0x{bearer.source_cid:04X}]'
     else:
         return f'[0x{bearer.handle:04X}]'
+
+
+# -----------------------------------------------------------------------------
+def _att_request_task(handler):
+    """
+    Decorator for asynchronous ATT handlers: run the handler in its own task and
+    make sure a request is always answered, with an Error Response if the handler
+    raises.
+    """
+
+    @functools.wraps(handler)
+    def wrapper(self, bearer, request):
+        async def run():
+            try:
+                await handler(self, bearer, request)
+            except Exception as error:
+                if isinstance(error, att.ATT_Error):
+                    logger.debug(f'normal exception returned by handler: {error}')
+                else:
+                    logger.exception(color("!!! Exception in handler:", "red"))
+                if request.op_code not in att.ATT_REQUESTS:
+                    return
+                is_att_error = isinstance(error, att.ATT_Error)
+                self.send_response(
+                    bearer,
+                    att.ATT_Error_Response(
+                        request_opcode_in_error=request.op_code,
+                        attribute_handle_in_error=(
+                            error.att_handle if is_att_error else 0x0000
+                        ),
+                        error_code=(
+                            error.error_code
+                            if is_att_error
+                            else att.ATT_UNLIKELY_ERROR_ERROR
+                        ),
+                    ),
+                )
+
+        utils.AsyncRunner.spawn(run())
+
+    return wrapper
 
 
 # -----------------------------------------------------------------------------
@@ -722,7 +764,7 @@ class Server(utils.EventEmitter):
 
         self.send_response(bearer, response)
 
-    @utils.AsyncRunner.run_in_task()
+    @_att_request_task
     async def on_att_find_by_type_value_request(
         self, bearer: att.Bearer, request: att.ATT_Find_By_Type_Value_Request
     ):
@@ -778,7 +820,7 @@ class Server(utils.EventEmitter):
 
         self.send_response(bearer, response)
 
-    @utils.AsyncRunner.run_in_task()
+    @_att_request_task
     async def on_att_read_by_type_request(
         self, bearer: att.Bearer, request: att.ATT_Read_By_Type_Request
     ):
@@ -858,7 +900,7 @@ class Server(utils.EventEmitter):
 
         self.send_response(bearer, response)
 
-    @utils.AsyncRunner.run_in_task()
+    @_att_request_task
     async def on_att_read_request(
         self, bearer: att.Bearer, request: att.ATT_Read_Request
     ):
@@ -887,7 +929,7 @@ class Server(utils.EventEmitter):
             )
         self.send_response(bearer, response)
 
-    @utils.AsyncRunner.run_in_task()
+    @_att_request_task
     async def on_att_read_blob_request(
         self, bearer: att.Bearer, request: att.ATT_Read_Blob_Request
     ):
@@ -935,7 +977,7 @@ class Server(utils.EventEmitter):
             )
         self.send_response(bearer, response)
 
-    @utils.AsyncRunner.run_in_task()
+    @_att_request_task
     async def on_att_read_by_group_type_request(
         self, bearer: att.Bearer, request: att.ATT_Read_By_Group_Type_Request
     ):
@@ -1006,7 +1048,7 @@ class Server(utils.EventEmitter):
 
         self.send_response(bearer, response)
 
-    @utils.AsyncRunner.run_in_task()
+    @_att_request_task
     async def on_att_read_multiple_request(
         self, bearer: att.Bearer, request: att.ATT_Read_Multiple_Request
     ):
@@ -1048,7 +1090,7 @@ class Server(utils.EventEmitter):
         response = att.ATT_Read_Multiple_Response(set_of_values=b''.join(values))
         self.send_response(bearer, response)
 
-    @utils.AsyncRunner.run_in_task()
+    @_att_request_task
     async def on_att_read_multiple_variable_request(
         self, bearer: att.Bearer, request: att.ATT_Read_Multiple_Variable_Request
     ):
@@ -1099,7 +1141,7 @@ class Server(utils.EventEmitter):
         )
         self.send_response(bearer, response)
 
-    @utils.AsyncRunner.run_in_task()
+    @_att_request_task
     async def on_att_write_request(
         self, bearer: att.Bearer, request: att.ATT_Write_Request
     ):
@@ -1149,7 +1191,7 @@ class Server(utils.EventEmitter):
             response = att.ATT_Write_Response()
         self.send_response(bearer, response)
 
-    @utils.AsyncRunner.run_in_task()
+    @_att_request_task
     async def on_att_write_command(
         self, bearer: att.Bearer, request: att.ATT_Write_Command
     ):
